@@ -23,10 +23,22 @@ from checks import lexmodels as L  # noqa
 
 def main():
     C = Check("C01", "front end never crashes on any source text (lexer)")
-    P = Program(L.LEX_FILES)
+    P = Program(L.LEX_FILES + ["src/parser.rs"])
     if P.errors:
         raise Unsupported("; ".join(P.errors))
     N = 2 if C.tier == "quick" else 3
+
+    def run_front(ctx, chars):
+        """The real lexer, then - as the parser does for every token that starts with a double quote (string literals
+        and import paths) - the real unescape_string on that token."""
+        I, src, res = L.run_lexer(P, ctx, chars)
+        ts, errs = res
+        for tok in ts.fields["tokens"].items:
+            text = I.deref(tok.fields["text"])
+            cs = text.chars() if hasattr(text, "chars") else []
+            if cs and ctx.branch(cs[0].z() == 34):
+                I.call_user(P.fns["unescape_string"], [tok])
+        return I, src, res
     C.bounds = {"source_chars": f"0..{N}, each any Unicode scalar value", "loop_unwinding": 24,
                 "regexes": {k: L.pattern_of(Struct("LazyStatic", {"e": v["e"]})) for k, v in P.statics.items()}}
     C.assumptions += [
@@ -34,7 +46,8 @@ def main():
         "in lex.rs (all four patterns start with ^); validated each run against the real lexer through `garden verif lex`",
         "line_numbers::LinePositions::from_offset = (number of LF bytes before the offset, bytes since the last LF)",
         "char::is_whitespace = the Unicode White_Space ranges table",
-        "the parser, checker and formatter (recursive descent over token vectors and Rc trees) are outside the claim",
+        "of the parser only unescape_string (run on every string token the lexer produces) is inside the claim; the "
+        "recursive descent over token vectors, the checker and the formatter are outside it",
     ]
     sites = {}
     for n in range(0, N + 1):
@@ -62,7 +75,7 @@ def main():
                         "detail": f"garden check exit={code} {err[:160]!r}"}
             C.prove(f"n{n}/path{i}:no-panic:{p.kind}@{p.line}", r.pc, False, site=site, what=f"the lexer panics: {p}", replay=replay,
                     model_desc=lambda m, chars=chars: repr(L.model_string(m, chars)))
-        explore(lambda ctx: L.run_lexer(P, ctx, chars), max_paths=2000000, on_result=handle)
+        explore(lambda ctx: run_front(ctx, chars), max_paths=2000000, on_result=handle)
         C.paths += cnt["paths"]
         n_ok = cnt["ok"]
         C.reach(f"n{n}/lexer-returns", [z3.BoolVal(n_ok > 0)])
